@@ -171,6 +171,7 @@ structure Inst where
   pool : List Slot := []
   poolEvicted : List Nat := []
   evictPending : Bool := false
+  evictedEver : List Nat := []        -- keys evicted since this process started (their waiters may report late)
   issuersSeen : List Nat := []
   issuerFailed : Bool := false
   cache : List (Nat × Nat × Nat) := []   -- key ↦ (index, timestamp); survives crashes (file)
@@ -309,7 +310,7 @@ def step (s : Sys) : Ev → Option Sys
     let x := s.insts i
     match x.phase with
     | .down => some (s.setInst i { x with phase := .loading .lockFetch, pool := [], poolEvicted := [],
-                                          issuersSeen := [], issuerFailed := false, evictPending := false })
+                                          issuersSeen := [], issuerFailed := false, evictPending := false, evictedEver := [] })
     | _ => none
   | .launchRound i =>
     let x := s.insts i
@@ -555,13 +556,14 @@ def step (s : Sys) : Ev → Option Sys
     let x := s.insts i
     if x.evictPending then
       -- the victim is a low-priority slot of the current pool; the newcomer (appended last) takes its place
-      match x.pool.getLast?, x.pool.dropLast.findIdx? (fun sl => sl.eid == eid && sl.low) with
+      match x.pool.getLast?, x.pool.dropLast.findIdx? (fun sl => sl.key == key && sl.low) with
       | some nw, some k =>
-        some (s.setInst i { x with pool := x.pool.dropLast.set k nw, poolEvicted := key :: x.poolEvicted, evictPending := false })
+        some (s.setInst i { x with pool := x.pool.dropLast.set k nw, poolEvicted := key :: x.poolEvicted,
+                                   evictedEver := key :: x.evictedEver, evictPending := false })
       | _, _ => none
     else
       -- another waiter of an already evicted entry (its key stays in the pool's lookup table)
-      if x.poolEvicted.contains key || (match x.phase with | .round r => r.evicted.contains key | _ => false) then some s else none
+      if x.evictedEver.contains key then some s else none
   | .ack i eid key idx ts =>
     let x := s.insts i
     let pub : Option Ck := match s.store .ckpt with
